@@ -30,6 +30,9 @@ def _audit(event, args):
         OPENS.append((p, args[1], args[2]))
 
 
+ENTERED = []
+
+
 def main():
     repo, has_sgio, has_iscsi = sys.argv[1], sys.argv[2] == "1", sys.argv[3] == "1"
     sys.path.insert(0, repo)
@@ -145,8 +148,10 @@ def main():
             calls.append(("init_device", dev, rw, None))
             calls.append(("init_device", dev, rw, "iqn.1999-01.x:explicit"))
             calls.append(("SCSIDevice", dev, rw, None))
+            calls.append(("SCSIDeviceSub", dev, rw, None))
         calls.append(("ISCSIDevice", dev, None, "iqn.1999-01.x:explicit"))
         calls.append(("ISCSIDevice", dev, None, None))
+        calls.append(("ISCSIDeviceSub", dev, None, None))
     # call order: the same calls in four different orders (one process each), so that a factory remembering something from an
     # earlier call (a cached default, a handle, a name) is seen whichever way round the calls come
     order = int(sys.argv[4]) if len(sys.argv) > 4 else 0
@@ -158,6 +163,7 @@ def main():
         calls = calls[1::2] + calls[0::2]
     for (fn, dev, rw, ini) in calls:
         v = []
+        del ENTERED[:]
         del OPENS[:]
         del registry.iscsi_events[:]
         RECORD[0] = True
@@ -168,6 +174,25 @@ def main():
             elif fn == "SCSIDevice":
                 from pyscsi.pyscsi.scsi_device import SCSIDevice
                 obj = SCSIDevice(dev, rw)
+            elif fn == "SCSIDeviceSub":
+                # a device class derived from SCSIDevice that opens the node its own way (replacing open() entirely)
+                import pyscsi.pyscsi.scsi_device as dm
+
+                class FdDevice(dm.SCSIDevice):
+                    def open(self):
+                        ENTERED.append("FdDevice.open")
+                        fd = os.open(self._file_name, os.O_RDWR if self._read_write else os.O_RDONLY)
+                        self._file = os.fdopen(fd, "r+b" if self._read_write else "rb", buffering=0)
+                        self._ino = dm.get_inode(self._file_name)
+                obj = FdDevice(dev, rw)
+            elif fn == "ISCSIDeviceSub":
+                from pyscsi.pyiscsi.iscsi_device import ISCSIDevice
+
+                class PooledISCSI(ISCSIDevice):
+                    def open(self, device):
+                        ENTERED.append("PooledISCSI.open")
+                        self._pooled = device
+                obj = PooledISCSI(dev) if ini is None else PooledISCSI(dev, ini)
             else:
                 from pyscsi.pyiscsi.iscsi_device import ISCSIDevice
                 obj = ISCSIDevice(dev) if ini is None else ISCSIDevice(dev, ini)
@@ -177,9 +202,11 @@ def main():
         opens = list(OPENS)
         events = list(registry.iscsi_events)
         tag = "%s(%r, rw=%r, initiator=%r) [sgio=%s iscsi=%s]" % (fn, dev, rw, ini, has_sgio, has_iscsi)
-        sg_path = dev[:5] == "/dev/" and fn in ("init_device", "SCSIDevice")
-        is_path = dev[:8] == "iscsi://" and fn in ("init_device", "ISCSIDevice")
-        if sg_path and has_sgio:
+        sg_path = dev[:5] == "/dev/" and fn in ("init_device", "SCSIDevice", "SCSIDeviceSub")
+        is_path = dev[:8] == "iscsi://" and fn in ("init_device", "ISCSIDevice", "ISCSIDeviceSub")
+        if fn.endswith("Sub") and ((sg_path and has_sgio) or (is_path and has_iscsi)):
+            pass          # (a request the base class serves: what the subclass's own open() does with it is the subclass's business)
+        elif sg_path and has_sgio:
             want_mode = "w+b" if rw else "rb"
             if any(p != dev for p, _, _ in opens):
                 v.append(("factory/opened_other_path", "%s opened %r" % (tag, opens)))
@@ -218,6 +245,8 @@ def main():
                 v.append(("factory/opened_before_refusal", "%s opened %r" % (tag, opens)))
             if events:
                 v.append(("factory/connected_before_refusal", "%s iSCSI events %r" % (tag, events)))
+            if ENTERED:
+                v.append(("factory/subclass_open_entered_before_refusal", "%s: %s ran although the request must be refused" % (tag, ENTERED[0])))
         if obj is not None:
             try:
                 obj.close()
